@@ -304,10 +304,21 @@ def token_kind_templates(chk, gen, lm, TF, tier):
             samples[k] = seen[:400] + [a for a in adversarial
                                        if a not in seen]
             if not seen:
-                # no probe (<= 3 characters) builds this kind: identifier-
-                # like values exercise its arm without claiming anything
-                # about payloads the lexer may never produce
-                samples[k] = ["x", "ab", "a_b", "", "_x"]
+                # no short probe builds this kind: look behind the digraph
+                # heads (new two-character openers) with a longer tail; the
+                # values are still exactly what the lexer produces
+                o = lp.other
+                dig = [h for h in lp.reps
+                       if lp.run(h + o) == [("GENERAL", h + o)]]
+                for h in dig:
+                    for a in lp.reps:
+                        for t in ("x", "xy", "_x", ""):
+                            res = lp.run(h + a + t)
+                            if isinstance(res, list):
+                                for kk, vv in res:
+                                    if kk == k and vv not in seen:
+                                        seen.append(vv)
+                samples[k] = seen[:400]
             chk.info("C02.token-compiles", f"token/{k}",
                      f"token kind {k} is not in the value table: "
                      f"{len(samples[k])} values taken from the probed lexer"
